@@ -93,6 +93,15 @@ def r4(ctx):
                         excl[member] = True
                     if positive and member == "PYTHON" and in_body:
                         excl = {k: True for k in excl}
+        # … or the extraction sits in the arm of a conditional (statement or expression) taken only for python factors
+        from ..util import guards_of
+        for gt_, pol in guards_of(P, c):
+            if ".eval_method is " in gt_:
+                member = gt_.split(".")[-1]
+                if not pol and member in excl:
+                    excl[member] = True
+                if pol and member == "PYTHON":
+                    excl = {k: True for k in excl}
         ok = all(excl.values())
         ctx.check(ok, "C17.R4", "SimpleFormula.required_variables parses only python factors as Python", g.module.line(c), ctx.construct(sf, text="python-only parsing"),
                   f"the Python-AST extractor is applied without first excluding {[k for k, v in excl.items() if not v]} factors: a back-quoted name such as "
@@ -243,7 +252,15 @@ def r5(ctx, _shared=True):
     ctx.check(ok, "C17.R5", "the recorded left-hand-side variables are those of the tokens left of the top-level `~`", gt.where, ctx.construct(gt, text="lhs variables"),
               f"context key is written as `{norm(w[0].value)[:100] if w else None}`")
     sg = P.func("formulaic.sugar.model_matrix")
-    ok = ".layered_context" in norm(sg.node) and "context=_spec_context" in norm(sg.node)
+    try:
+        so = [o for o in sym.outcomes(sg.node) if o.kind == "return" and o.value is not None]
+    except sym.Unmodelled:
+        so = []
+    ok = bool(so)
+    for o in so:
+        b_ = sym.pm("ModelSpec.from_spec(spec, context=ANY_pc, **spec_overrides).get_model_matrix(data, context=ANY_ec, drop_rows=drop_rows)", o.value)
+        ok = ok and b_ is not None and sym.pm(f"ModelSpec.from_spec([], **spec_overrides).get_materializer(data, context={b_['ANY_ec']}).layered_context",
+                                                ast.parse(b_["ANY_pc"], mode="eval").body) is not None
     ctx.check(ok, "C17.R5", "model_matrix() parses the formula against the materializer's layered context (so `.` sees the data columns)", sg.where,
               ctx.construct(sg, text="spec context"), "the parser context must be the materializer's layered_context")
     # the left-hand-side scan relies on the `~` split performed by the token rewriters for every parser configuration (= C01.R4 / C01.R10)
